@@ -7,6 +7,7 @@ CONSTANTS
   MCMaxOps = 3
 INVARIANT RoundTrip
 INVARIANT ExportIsCurrent
+INVARIANT BinaryFieldsOpaque
 INVARIANT ConversionIdentity
 INVARIANT RoutesKeepPoint
 INVARIANT OpsEffect
